@@ -10,7 +10,7 @@
    ascending spectrum (C10_slice_LM / C10_slice_SM); least-squares optimality and minimum norm are proved as the exact
    Pythagoras identities (the inequalities follow over any ordered field); the CG rule is exact up to the eps A^H b term. *)
 From Coq Require Import ZArith QArith Qcanon List Arith Bool.
-From Core Require Import Base FieldBase C09_MatAlg C10_Model C10_Check C16_Model C16_Proofs C16_Check.
+From Core Require Import Base FieldBase C09_MatAlg C10_Model C10_Check C16_Model C16_Proofs C16_Extra C16_Check.
 Import ListNotations.
 
 Definition C16_full : Prop :=
@@ -48,6 +48,20 @@ Theorem C16_lanczos_model : forall (R : Type) (RR : Ring R) (CR : CRing R) (FF :
   Some (mksvd (length idx) (lanU n A W idx (fun j => sqrt_ (lam (nth j idx 0%nat)))) (fun j => sqrt_ (lam (nth j idx 0%nat))) (lanV W idx)).
 Proof. intros R RR CR FF. exact (svd_lanczos_tall_out (R:=R)). Qed.
 Print Assumptions C16_lanczos_model.
+
+(* wide operators (m < n): eigenpairs of A A^H give U = W[:, idx]; V = (Sigma^-1 U^H A)^H is the same construction on A^H:
+   orthonormal columns and V Sigma = A^H U *)
+Theorem C16_lanczos_svd_wide_partial : forall (R : Type) (RR : Ring R) (CR : CRing R) (FF : Field R) m n q (A W : fm (R:=R)) lam idx s,
+  LanczosSpec n m q (cj A) W lam idx s ->
+  let k := length idx in let U := lanV W idx in let V := lanU m (cj A) W idx s in
+  orthocols m k U /\ orthocols n k V /\ feq n k (fun i j => rmul (V i j) (s j)) (mmul m (cj A) U).
+Proof. intros R RR CR FF. exact (lanczos_svd_wide_partial (R:=R)). Qed.
+Print Assumptions C16_lanczos_svd_wide_partial.
+Theorem C16_lanczos_wide_model : forall (R : Type) (RR : Ring R) (CR : CRing R) (FF : Field R) m n (A W : fm (R:=R)) idx (s : nat -> R),
+  (forall j, (j < length idx)%nat -> conj (s j) = s j /\ s j <> r0) ->
+  feq n (length idx) (fun i j => conj (rdiv (mmul m (cj (lanV W idx)) A j i) (s j))) (lanU m (cj A) W idx s).
+Proof. intros R RR CR FF. exact (svd_lanczos_wide_V (R:=R)). Qed.
+Print Assumptions C16_lanczos_wide_model.
 
 (* structural svd rules: valid when the diagonal is non-negative (for the pinned code it need not be: refuted below) *)
 Theorem C16_svd_diagonal : forall (R : Type) (RR : Ring R) (CR : CRing R) (FF : Field R) (nonneg : R -> Prop) n (d : nat -> R),
@@ -97,6 +111,12 @@ Theorem C16_pinv_cg : forall (R : Type) (RR : Ring R) (CR : CRing R) (FF : Field
   (feq n n (mmul n (mmul m (cj A) A) Minv) eye -> feq n m (mmul n (mmul m (cj A) A) (mmul n Minv (cj A))) (cj A)).
 Proof. intros R RR CR FF m n A Minv eps. exact (Logic.conj (pinv_cg_form (R:=R) m n A Minv eps) (pinv_cg_normal_eq (R:=R) m n A Minv)). Qed.
 Print Assumptions C16_pinv_cg.
+
+(* full column rank: (A^H A)^-1 A^H - what the CG rule computes up to its eps term - is the Moore-Penrose inverse *)
+Theorem C16_pinv_normal_equations : forall (R : Type) (RR : Ring R) (CR : CRing R) (FF : Field R) m n (A Minv : fm (R:=R)),
+  inv2 n (mmul m (cj A) A) Minv -> Penrose m n A (mmul n Minv (cj A)).
+Proof. intros R RR CR FF. exact (pinv_normal_equations_penrose (R:=R)). Qed.
+Print Assumptions C16_pinv_normal_equations.
 
 (* ---- refutation witnesses ---- *)
 Theorem C16_svd_diag_negative_refuted :
